@@ -129,6 +129,26 @@ func runC09(c *ctx) {
 		}()
 		c.emit("cookiedec", "value", hx(v), "accepted", accepted, "panicked", panicked)
 	}
+	// (ii') a key that is not exactly 256 bits is never usable: no padding, no truncation (an EMPTY data key is what a foreign cookie type decodes to)
+	for _, n := range []int{0, 1, 16, 31, 33, 48, 64} {
+		k := make([]byte, n)
+		encOK, decOK := false, false
+		func() {
+			defer func() { recover() }()
+			cr := crypto.NewCrypter(k)
+			if _, err := cr.Encrypt([]byte("plaintext")); err == nil {
+				encOK = true
+			}
+			full := make([]byte, 32)
+			copy(full, k)
+			if ct, err := crypto.NewCrypter(full).Encrypt([]byte("plaintext")); err == nil {
+				if _, err := cr.Decrypt(ct); err == nil {
+					decOK = true // opens what was sealed under the zero-padded / truncated key
+				}
+			}
+		}()
+		c.emit("keylen09", "n", n, "encok", encOK, "decok", decOK)
+	}
 	// (iii) through the router
 	s := newSut(sutOpts{sidRequired: true, forwardAuth: true})
 	defer s.close()
@@ -148,6 +168,14 @@ func runC09(c *ctx) {
 	valA, _ := s.mr.Get(ta.Key())
 	valB, _ := s.mr.Get(tb.Key())
 	raw, _ := base64.RawURLEncoding.DecodeString(sessA)
+	// an attacker with write access to the STORE (not to any key) plants a session record under the empty store key, sealed with the all-zero key: a login /
+	// logout cookie presented as session cookie decodes to a ticket with an empty id and an empty data key - it must not open that record
+	if dA := s.storedData(ta); dA != nil {
+		if enc, err := dA.Encrypt(crypto.NewCrypter(make([]byte, 32))); err == nil {
+			s.mr.Set("", string(enc.Ciphertext))
+			s.mr.SetTTL("", time.Hour)
+		}
+	}
 	type variant struct{ name, cookie string }
 	vars := []variant{{"own", sessA}, {"truncated", sessA[:len(sessA)/2]}, {"extended", sessA + "AAAA"}, {"notbase64", "!!!" + sessA}, {"empty", ""},
 		{"logincookie-as-session", la.get(cookie.Login).Value}, {"logoutcookie-as-session", lo.get(cookie.Logout).Value},
